@@ -288,14 +288,15 @@ CLAIMED = {
         "(Build must be a function of its input) and runprog's 16 shipped configurations; in Coq (vm_compute) each real filter must (a) be "
         "bit-identical to the Gallina port `build` of Builder.Build/Policy.Assemble/Program.Assemble(long-jump rewriting)/bpf.Assemble/sockFilter "
         "and (b) pass check_filter for the declared policy, which by the theorem is a proof for that filter over its whole input space.  "
-        "C01_build_correct_partial proves the port correct once and for all for every policy with at most 256 numbers per list (closed form of "
-        "Program.Assemble's output, C01_assemble_closed_form, and the filter's semantics with both prologue forms).  Filters returned by earlier "
+        "C01_build_correct proves the port correct once and for all for EVERY policy, any list lengths: C01_assemble_closed_form gives the output "
+        "of Program.Assemble, long-jump rewriting included, in closed form (chunks of 255 comparisons, each followed by a copy of the group's "
+        "return), by an invariant carried through every insertion, and the filter's semantics is proved with both prologue forms.  Filters returned by earlier "
         "Builds of one long-lived Builder are held and read again after all later Builds.  Further theorems: fail-closed actions, foreign ABI / x32, unknown names never build, cleanTrace (trace precedence, disjoint, duplicate-free).",
-   note="Partial: 'for every policy' is one theorem about the port `build` only up to 256 numbers per list; for longer lists (early returns "
-        "inserted by Program.Assemble) it is proved per built filter by the validator (stated in DESIGN.md).  Trusted: Coq kernel + vm_compute; cBPF semantics of the fragment "
+   note="The theorems are about the Gallina port `build`; that the port is Builder.Build is what the bit-exact comparison of every built filter "
+        "checks on every run (policies up to the full table, around every jump horizon), and the validator re-proves each real filter independently.  Trusted: Coq kernel + vm_compute; cBPF semantics of the fragment "
         "(ld abs nr/arch, jeq/jgt/jge k, ja, ret) as modelled in Seccomp/Bpf.v; kernel action constants; the syscall table is data dumped from "
         "go-seccomp-bpf on every run; Python cBPF interpreter as independent oracle.",
-   technique="Coq proof of a reflective validator (translation validation of each built filter inside Coq) + bit-exact Gallina port of the assembler",
+   technique="Coq proof of the assembler port for all policies (closed form + invariant over the long-jump insertions) and of a reflective validator (translation validation of each built filter inside Coq) + bit-exact comparison of port and code",
    design="§5 C01"),
  "C09": dict(
    text="Theorems in Coq about executable models of the three classifiers (container: convertReply;convertReplyResult, namespace runner: the "
